@@ -16,12 +16,17 @@ pub struct AsmOut {
     pub spans: Vec<(usize, usize)>,
     pub diag: String,
     pub msg: String,
+    /// the diagnostic rendered (`{:?}`) without panicking
+    pub diag_ok: bool,
+    /// every labelled span of the diagnostic lies inside the source
+    pub spans_ok: bool,
 }
 
 impl AsmOut {
     pub fn to_json(&self) -> Value {
         json!({"res": self.res, "stage": self.stage, "orig": self.orig, "words": self.words, "bps": self.bps,
-               "syms": self.syms.iter().map(|(n, l)| json!([n, l])).collect::<Vec<_>>(), "msg": self.msg})
+               "syms": self.syms.iter().map(|(n, l)| json!([n, l])).collect::<Vec<_>>(), "msg": self.msg,
+               "diag_ok": self.diag_ok, "spans_ok": self.spans_ok})
     }
 }
 
@@ -32,11 +37,30 @@ pub fn assemble(src: &str, render_diag: bool) -> AsmOut {
     let text: &'static str = holder.src();
     let mut out = AsmOut {
         res: "err", stage: "", orig: -1, words: vec![], bps: vec![], syms: vec![], spans: vec![],
-        diag: String::new(), msg: String::new(),
+        diag: String::new(), msg: String::new(), diag_ok: true, spans_ok: true,
     };
+    let src_len = text.len();
+    let mut spans_ok = true;
+    let mut diag_ok = true;
     let (r, ended) = guarded(|| -> Result<(), (&'static str, String)> {
-        let diag = |stage: &'static str, e: miette::Report| -> (&'static str, String) {
-            (stage, if render_diag { format!("{:?}", e) } else { format!("{}", e) })
+        let mut diag = |stage: &'static str, e: miette::Report| -> (&'static str, String) {
+            if let Some(labels) = e.labels() {
+                for l in labels {
+                    if l.offset() + l.len() > src_len {
+                        spans_ok = false;
+                    }
+                }
+            }
+            if render_diag {
+                // rendering a diagnostic must not panic either
+                let (text, ended) = guarded(|| format!("{:?}", e));
+                if ended != Ended::Returned {
+                    diag_ok = false;
+                }
+                (stage, text.unwrap_or_else(|| format!("<render failed: {}>", ended.msg())))
+            } else {
+                (stage, format!("{}", e))
+            }
         };
         let parser = AsmParser::new(text).map_err(|e| diag("lex", e))?;
         let mut air = parser.parse().map_err(|e| diag("parse", e))?;
@@ -66,6 +90,8 @@ pub fn assemble(src: &str, render_diag: bool) -> AsmOut {
             out.msg = e.msg();
         }
     }
+    out.diag_ok = diag_ok;
+    out.spans_ok = spans_ok;
     lace::reset_state();
     holder.reclaim();
     out
